@@ -4,6 +4,7 @@
 -/
 import TdVerif.Lemmas.C10Memmap
 import TdVerif.Lemmas.C10Refresh
+import TdVerif.Lemmas.C10Tensor
 import TdVerif.Gen.Dtypes
 
 namespace TdVerif.Props.C10
@@ -159,6 +160,82 @@ theorem refresh_sees_entry_made_elsewhere :
       ∧ load 2 (save fs1 [] t0) [] = some t0 := by
   simp [save, runTasks, runWrites, tasksTree, tasksKids, numel, load, loadEntries, loadInto, loadIntoEntries, loadIntoSkip,
     loadIntoEntriesSkip, kid?, Slots.write, nodeMeta, metaEntry, makeMemmap, writeLeaf, zeros, List.lookup]
+
+/-! ### the leaf level: `_populate_memmap` / `MemoryMappedTensor.from_tensor` / `from_filename`, entries memory-mapped elsewhere -/
+
+/-- **what is saved is the content of the tensor, whatever it is a view of**: for an ordinary tensor, or a memory-mapped one
+    living in *another* file — its whole file or any indexed view of it (one row, a slice, a strided or gathered selection) —
+    with `copy_existing=True`: the task succeeds, `from_filename` on the new file reads back exactly the content of the input,
+    the tensor handed back shows it too, and no other file (in particular the source's) changes. -/
+theorem populate_saves_value (fs : FS) (dir : Path) (key : String) (value : Src)
+    (hsrc : ∀ p idx, value = .file p idx → p ≠ dir ++ [key ++ ".memmap"]) :
+    ∃ fs' t, populate fs dir key value true false true = .ok (fs', t)
+      ∧ (fromFilename (dir ++ [key ++ ".memmap"]) (value.value fs).length).value fs' = value.value fs
+      ∧ t.value fs' = value.value fs
+      ∧ ∀ q, q ≠ dir ++ [key ++ ".memmap"] → fs' q = fs q := by
+  have key1 : ∀ fs0 : FS, ∀ v : List Nat,
+      (List.range v.length).filterMap ((fileBytes (mapAndCopy fs0 (dir ++ [key ++ ".memmap"]) v.length (some v)) (dir ++ [key ++ ".memmap"]))[·]?) = v := by
+    intro fs0 v
+    obtain ⟨t, ht⟩ := mapAndCopy_prefix fs0 (dir ++ [key ++ ".memmap"]) v
+    rw [ht]; exact read_prefix v t
+  refine ⟨mapAndCopy fs (dir ++ [key ++ ".memmap"]) (value.value fs).length (some (value.value fs)),
+    .file (dir ++ [key ++ ".memmap"]) (List.range (value.value fs).length), ?_, ?_, ?_, ?_⟩
+  · cases value with
+    | mem b => simp [populate, fromTensor]
+    | file p idx => simp [populate, fromTensor, hsrc p idx rfl]
+  · simpa [fromFilename, Src.value] using key1 fs (value.value fs)
+  · simpa [Src.value] using key1 fs (value.value fs)
+  · intro q hq; exact mapAndCopy_other fs _ q _ _ hq
+
+/-- `copy_existing=False` refuses a tensor that lives in another file; a tensor that *is* the file it is asked to be saved on
+    is handed back without a write; a partial view of that file is refused (after the repair: it was handed back too, and
+    the directory then described the view while holding the parent) -/
+theorem populate_existing_cases (fs : FS) (dir : Path) (key : String) (p : Path) (idx : List Nat) (like existsok : Bool) :
+    (p ≠ dir ++ [key ++ ".memmap"] → populate fs dir key (.file p idx) false like existsok = .error .existing)
+      ∧ (p = dir ++ [key ++ ".memmap"] → wholeFile fs p idx = true →
+          ∀ ce, populate fs dir key (.file p idx) ce like existsok = .ok (fs, .file p idx))
+      ∧ (p = dir ++ [key ++ ".memmap"] → wholeFile fs p idx = false →
+          ∀ ce, populate fs dir key (.file p idx) ce like existsok = .error .partialView) := by
+  refine ⟨?_, ?_, ?_⟩
+  · intro h; simp [populate, fromTensor, h]
+  · intro h hw ce; subst h; simp [populate, fromTensor, hw]
+  · intro h hw ce; subst h; simp [populate, fromTensor, hw]
+
+/-- `existsok=False`: a file that is there is never overwritten — the task raises, whatever the tensor (ordinary, or living in
+    another file with `copy_existing=True`), whether the content would be copied or not. (The threaded front-end must hand the flag
+    to the task: the seeded variant that drops it overwrites with num_threads > 1 what num_threads = 0 refuses — the check
+    compares outcome and directory with the single-threaded form.) -/
+theorem populate_refuses_overwrite (fs : FS) (dir : Path) (key : String) (value : Src) (like : Bool)
+    (hex : (fs (dir ++ [key ++ ".memmap"])).isSome = true)
+    (hsrc : ∀ p idx, value = .file p idx → p ≠ dir ++ [key ++ ".memmap"]) :
+    populate fs dir key value true like false = .error .exists_ := by
+  cases value with
+  | mem b => simp [populate, fromTensor, hex]
+  | file p idx => simp [populate, fromTensor, hex, hsrc p idx rfl]
+
+/-- duplicating the source **file** instead of copying the view (the seeded variant of `from_tensor`) saves row 0 for row 1 -/
+theorem copy_file_variant_counterexample :
+    let fs0 : FS := Slots.write (fun _ => none) ["src", "obs.memmap"] (.bytes [0, 1, 2, 3, 4, 5, 6, 7, 8, 9, 10, 11])
+    let row1 := Src.file ["src", "obs.memmap"] [4, 5, 6, 7]
+    row1.value fs0 = [4, 5, 6, 7]
+      ∧ (populate fs0 ["dst"] "obs" row1 true false true).toOption.map (fun r => (fromFilename ["dst", "obs.memmap"] 4).value r.1)
+          = some [4, 5, 6, 7]
+      ∧ (fromFilename ["dst", "obs.memmap"] 4).value (fromTensorCopyFile fs0 row1 ["dst", "obs.memmap"]).1 = [0, 1, 2, 3] := by
+  simp [populate, fromTensor, fromTensorCopyFile, fromFilename, Src.value, fileBytes, mapAndCopy, Slots.write, Except.toOption, List.range, List.range.loop]
+
+/-- tie with the tree-level model: for an ordinary tensor the task writes the tensor's bytes at the head of `<key>.memmap`; the
+    cell holds exactly those bytes unless a former, longer file was there (its tail stays; no load reads beyond `numel`) -/
+theorem populate_mem_is_task (fs : FS) (dir : Path) (key : String) (b : List Nat) (ce : Bool)
+    (hold : (fileBytes fs (dir ++ [key ++ ".memmap"])).length ≤ b.length) :
+    ∃ t, populate fs dir key (.mem b) ce false true = .ok (fs.write (dir ++ [key ++ ".memmap"]) (.bytes b), t) := by
+  refine ⟨.file (dir ++ [key ++ ".memmap"]) (List.range b.length), ?_⟩
+  have hm : mapAndCopy fs (dir ++ [key ++ ".memmap"]) b.length (some b) = fs.write (dir ++ [key ++ ".memmap"]) (.bytes b) := by
+    simp only [mapAndCopy, List.take_length]
+    congr 2
+    split
+    · rw [List.drop_eq_nil_of_le (by simp; omega)]; simp
+    · rw [List.drop_eq_nil_of_le (by omega)]; simp
+  simp [populate, fromTensor, Src.value, hm]
 
 /-- the dtype names written in meta.json are read back as the same dtype (regenerated tables) -/
 theorem dtype_string_roundtrip :
